@@ -3,6 +3,7 @@
    leveldb3 (directly and through FilerStoreWrapper).
    insert/update : dir, name, tok (hash of the entry as written), err
    delete        : dir, name, err
+   deltree       : dir, err                       (DeleteFolderChildren)
    snap          : finds [dir, name, found, got, err], lists [dir, api, items [n, got], err] *)
 EXTENDS MetaStore, TraceKit
 tvars == <<vars, kitvars>>
@@ -19,12 +20,15 @@ TUpdate == /\ IsEvent("update") /\ Strict
 TDelete == /\ IsEvent("delete") /\ Strict
            /\ Ev.err = "" /\ Delete(P(Ev))
            /\ UNCHANGED hist
+TDelTree == /\ IsEvent("deltree") /\ Strict
+            /\ Ev.err = "" /\ DeleteChildren(Ev.dir)
+            /\ UNCHANGED hist
 TSnap == /\ IsEvent("snap") /\ Strict
          /\ \A i \in 1..Len(Ev.finds) :
               LET f == Ev.finds[i] IN f.err = "" /\ FindAnswer(<<f.dir, f.name>>, f.found, f.got)
          /\ \A i \in 1..Len(Ev.lists) :
               LET g == Ev.lists[i] IN g.err = "" /\ ListAnswer(g.dir, g.items)
          /\ UNCHANGED vars
-TraceNext == TraceReset \/ TraceSkip \/ TInsert \/ TUpdate \/ TDelete \/ TSnap
+TraceNext == TraceReset \/ TraceSkip \/ TInsert \/ TUpdate \/ TDelete \/ TDelTree \/ TSnap
 TraceSpec == TraceInit /\ [][TraceNext]_tvars
 =============================================================================
